@@ -43,13 +43,14 @@ func c18LoaderTag(r *Run, tag string) {
 		mrs := map[string]*miniredis.Miniredis{}
 		paths := map[string]string{}
 		shared.setJWKS(jwksDoc(&c18Key(0).PublicKey, keys().kid))
+		stamp := time.Now().UnixNano()
 		for _, n := range []string{"a", "b"} {
 			mr, err := miniredis.Run()
 			must(err)
 			mrs[n] = mr
 			paths[n] = "/.well-known/openid-configuration/realms/" + n + fmt.Sprintf("-%d", time.Now().UnixNano())
 			if byQuery {
-				paths[n] = fmt.Sprintf("/.well-known/openid-configuration/v%d?p=B2C_1_%s", time.Now().UnixNano()/1000000, n)
+				paths[n] = fmt.Sprintf("/.well-known/openid-configuration/v%d?p=B2C_1_%s", stamp, n) // ONE path, two queries
 			}
 			shared.setDiscovery(paths[n], discAnswer{Kind: "doc", Doc: discDoc{Auth: "https://idp-" + n + ".example.com/authorize", Token: shared.srv.URL + "/token-" + n,
 				Jwks: shared.srv.URL + "/jwks", EndSession: "https://idp-" + n + ".example.com/end-session"}})
